@@ -24,6 +24,7 @@ from .. import monitor
 from ..common import rng_for, split
 from ..oracle import sphere_writer as SW
 
+OPTIMIZED_SHARDS = 1  # shards run once more in an interpreter started with -O (vf/run.py)
 LEVEL = "exploration"
 TECHNIQUE = "runtime monitors on read_signal / wds_read_signal against per-container writers; hostile-bytes decoding in crash-isolated child processes"
 RULE = (
@@ -267,6 +268,14 @@ def roundtrip(mon, rec, rng, d, U):
             U.read_signal(p2, force_as=FORCE[kind], **kw)
         else:
             f = open(path, "rb") if (kind == "raw" or rng.random() < 0.5) else io.BytesIO(open(path, "rb").read())
+            if kind == "sph" and x.shape[0] % 2 == 0:
+                # a raw stream that hands out fewer bytes than asked for (a pipe, a socket): what SPHERE files are often read from
+                from .C12 import _ShortReads
+
+                f.close()
+                f = _ShortReads(open(path, "rb").read(), int(rng.choice([1500, 4096, 8191, 16383, 20001])))
+                info = dict(info, access="stream_short_reads")
+                rec.count("sphere_streams_with_short_reads")
             mon.register(f, expected=_contig(want), info=info)
             try:
                 U.read_signal(f, force_as=FORCE[kind], **kw)
@@ -390,6 +399,27 @@ def error_contract(mon, rec, rng, d, U):
         f.close()
     rec.count("error_cases_on_real_file_objects", len(opened))
     rec.nt(("error_contract",))
+
+
+def short_read_streams(mon, rec, rng, d, U):
+    """SPHERE recordings of several read blocks taken from raw streams that hand out fewer bytes than asked for"""
+    from .C12 import _ShortReads
+
+    for k in (1500, 4096, 16383, 20001):
+        for c in (1, 3):
+            n = int(rng.integers(9000, 30000))
+            x = rng.integers(-30000, 30000, size=(n, c)).astype(np.int16)
+            path = os.path.join(d, "short_%d_%d.sph" % (k, c))
+            write("sph", x, path, rng)
+            f = _ShortReads(open(path, "rb").read(), k)
+            info = dict(kind="sph", shape=list(x.shape), stored_dtype="int16", channels=c, entries=1, cast=None, access="stream_short_reads_%d" % k, key=None, name=os.path.basename(path))
+            mon.register(f, expected=_contig(expected_of("sph", x)), info=info)
+            try:
+                U.read_signal(f, force_as="sph")
+            except Exception:
+                pass
+            rec.count("sphere_streams_with_short_reads")
+            mon.expect.clear()
 
 
 def rewritten_files(mon, rec, rng, d, U):
@@ -598,6 +628,7 @@ def run_case(case, rec, mon=None):
             error_contract(mon, rec, rng, d, U)
             mon.expect.clear()
             rewritten_files(mon, rec, rng, d, U)
+            short_read_streams(mon, rec, rng, d, U)
         else:
             hostile(mon, rec, rng, d, case["n"])
             rec.sample({"kind": "hostile", "n": case["n"]})
